@@ -359,13 +359,20 @@ static void gen_c11(plan_t *p, rng_t *r)
             continue;
         }
         if (c == 0) first_ops_start = p->nops;
-        plan_op(p, 0, "ctx", 2, (long)(rng_chance(r, 1, 10) ? rng_range(r, 150, 254) : rng_range(r, 0, 12)), (long)rng_chance(r, 1, 6));
+        plan_op(p, 0, "ctx", 2, (long)(rng_chance(r, 1, 10) ? rng_range(r, 150, 270) : rng_range(r, 0, 12)), (long)rng_chance(r, 1, 6));
         if (rng_chance(r, 1, 2)) { static const int nb[] = { 1, 2, 3, 4, 5, 6, 13, 33, 73, 153, 240 }; plan_op(p, 0, "builtin", 1, (long)nb[rng_below(r, rng_chance(r, 1, 6) ? 11 : 6)]); }      /* past the second, third ... doubling of the table too */
         gen_conf_file(p, r, "root.cfg", allow_exec, vars);
         if (rng_chance(r, 1, 2)) gen_conf_file(p, r, "inc.cfg", allow_exec, vars);
         if (rng_chance(r, 1, 3)) gen_conf_file(p, r, "sub/s.cfg", allow_exec, vars);
         { int np = rng_range(r, 1, 3);
           for (int q = 0; q < np; q++) {
+              if (q && rng_chance(r, 1, 3)) {
+                  /* registrations do not all happen before the first parse: more built-ins (the table grows and may move) and more
+                     contexts arrive between two parses */
+                  static const int nb[] = { 1, 2, 3, 4, 5, 6, 7, 11, 13 };
+                  if (rng_chance(r, 2, 3)) plan_op(p, 0, "builtin", 1, (long)nb[rng_below(r, 9)]);
+                  if (rng_chance(r, 1, 3)) plan_op(p, 0, "ctx", 2, (long)rng_range(r, 1, 12), 0L);
+              }
               o = plan_op(p, 0, "parse", 1, (long)rng_below(r, 3)); op_str(o, "root.cfg", 8);
               if (rng_chance(r, 1, 3)) { static const int lims[] = { 1, 2, 7, 255, 256, 4095, 4096 }; for (int f = 0; f < 4; f++) op_fault(o, FAULT(FC_READ, FO_SHORT, lims[rng_below(r, 7)])); }
               if (rng_chance(r, 1, 8)) op_fault(o, FAULT(FC_OPEN, rng_chance(r, 1, 2) ? FO_ENOENT : FO_EMFILE, 0));
@@ -404,6 +411,7 @@ static void gen_c11(plan_t *p, rng_t *r)
             else { o = plan_op(p, 0, "find", 1, 0L); op_str(o, "one", 3); { static const char t2[] = "d\001/tmp:/cfg"; op_str2(o, t2, sizeof(t2) - 1); } }                               /* found directly as dir/file */
         }
         if (rng_chance(r, 1, 3)) { o = plan_op(p, 0, "tempfile", 1, (long)(rng_chance(r, 1, 4) ? rng_range(r, 1, 40) : 256)); gbn = 0; add_bytes(r, (size_t)rng_range(r, 0, rng_chance(r, 1, 5) ? 250 : 12), 2); op_str(o, gb, gbn); }
+        if (rng_chance(r, 1, 4)) { static const int nb[] = { 1, 2, 3, 4, 5, 6, 7 }; plan_op(p, 0, "builtin", 1, (long)nb[rng_below(r, 7)]); }      /* ... and between the parses and a direct expansion */
         if (rng_chance(r, 1, 3)) { o = plan_op(p, 0, "expand", 0); gbn = 0; add_bytes(r, (size_t)(rng_chance(r, 1, 6) ? rng_range(r, 20000, 20479) : rng_range(r, 0, 80)), 1); for (size_t q = 0; q < gbn; q++) if (gb[q] == '`' && !allow_exec) gb[q] = '.'; op_str(o, gb, gbn); }
         if (c == 0) first_ops_end = p->nops;
         plan_op(p, 0, "free", 1, (long)(repeat ? 1 : 0));
